@@ -41,7 +41,7 @@ func (c *ctx) genFreq() uint32 {
 	case 4: // 1.2 .. 2.4 GHz
 		return uint32(1200000000) + uint32(c.rnd.Intn(12000000))*100
 	case 5:
-		return uint32(c.rnd.Intn(1 << 24)) * 100
+		return uint32(c.rnd.Intn(1<<24)) * 100
 	case 6:
 		return uint32(c.rnd.Intn(1<<24))*100 + uint32(c.rnd.Intn(100))
 	default:
